@@ -27,9 +27,11 @@ from props import grading_common as gc
 FLD = {"start_size": "PStart", "end_size": "PEnd", "c2c_expansion": "PC2c"}
 PREBUILT = ["Model/Propagate.v", "Proofs/PropagateBasics.v", "Proofs/PropagateTerm.v", "Proofs/PropagateInv.v",
             "Proofs/PropagateInit.v", "Proofs/PropagateFinal.v", "Model/C03_Relations.v", "Proofs/C03_GeomSeries.v",
-            "Model/C04_Payload.v", "Model/C04_Realise.v", "Proofs/C04_Transport.v", "Proofs/C04_Realise.v"]
+            "Model/C04_Payload.v", "Model/C04_Realise.v", "Proofs/C04_Transport.v", "Proofs/C04_Realise.v",
+            "Proofs/C04_Lipschitz.v"]
 TOL_SEQ = 1e-6       # downstream of brentq (DESIGN 2.4)
 EPS_MODEL = 1e-9     # closed-form float arithmetic (reciprocals)
+TOL_LEN = 1e-9       # two measurements of one edge (closed-form float arithmetic)
 
 
 # ---- generator ---------------------------------------------------------------------------------------
@@ -374,6 +376,10 @@ def direct_oracle(asm, res):
         return None  # a preserved size that does not fit on some edge is refused with a ValueError; nothing is written
     if out.startswith("error:"):
         return "unexpected exception %s: %s" % (out, res.get("message"))
+    # (0) one edge, one length: every block that has the edge measures the same Wire.length (straight, curved, moved)
+    lw = len_shared_witness(res)
+    if lw:
+        return lw
     if out != "ok":
         # refusals: nothing is written.  With exactly one chopped direction in every family there is nothing to disagree
         # about, so a refusal of such an assembly is wrong (other refusals are judged by C01/C02)
@@ -398,6 +404,10 @@ def direct_oracle(asm, res):
             items = [items[a] for a in range(3) for _k in range(4)]
         elif len(items) != 12:
             return "edgeGrading of block %d has %d entries" % (bi, len(items))
+        for it in items:
+            for sec in (it if isinstance(it, list) else [[1.0, 1.0, it]]):
+                if not (0.0 < sec[0] <= 1.0 + 1e-9 and sec[2] > 0.0 and math.isfinite(sec[2])):
+                    return "grading of block %d has a section with length ratio %r and expansion %r" % (bi, sec[0], sec[2])
         for a in range(3):
             for k in range(4):
                 L = res["wire_lengths"][bi][4 * a + k]
@@ -604,15 +614,21 @@ class C04(Prop):
         "blockMesh's geometric progression by an interval goal (C03 proves the relations themselves)",
         "user chops enter as (length_ratio, results.count, preserve, results[preserve]) read from the implementation after the "
         "axis-level calculation (its correctness is C03); the direct oracle compares with the requested value where one was given",
-        "edge lengths are numbers taken from Wire.length (curved-edge lengths are C07/C08/C16); 'shared edge' is vertex-index equality",
+        "edge lengths are numbers taken from Wire.length when the mesh is written (curved-edge lengths are C07/C08/C16); 'shared edge' "
+        "is vertex-index equality; hypothesis len_shared (coincident wires have one length) is checked on every case, also with arcs "
+        "and vertices moved after assembly: all pairs of coincident wires report the same Wire.length (rel. 1e-9) and every wire is "
+        "graded on that length; likewise expansions_positive, ratios_bounded 1 and 0 <= TOL < 1 (hypotheses of C04_same_sequence)",
         "orientation hypothesis of the payload theorems (a direction label per block axis such that aligned <-> equal labels) is "
         "validated by the harness on every generated assembly (lattice direction signs), not proved for arbitrary vertex lists",
     ]
     partial = [
-        "C04_same_sequence_partial: proved - on success coincident wires carry equal counts and gradings equal number by number to "
-        "the code's own relative tolerance (exactly for copied wires), Grading.inverted is exactly the reversed cell sequence "
-        "(multi-section); missing for C04_same_sequence_stmt - a Lipschitz bound from closeness of expansions to closeness of cell "
-        "sizes for two independently chopped blocks (measured by the direct oracle at 1e-6 on every case)",
+        "C04_same_sequence is proved with an explicit tolerance: on success the cell sequences of coincident wires agree cell by "
+        "cell within kappa(tau)*|L|*M, kappa(tau) = tau(2-tau)/(1-tau) <= 3 tau, for all section counts and expansions "
+        "(C04_sequences_close, C04_cell_factor), reversed when anti-aligned, and are EXACTLY equal under the premise that the wire "
+        "holds the other wire's section records (what copy_neighbours establishes: C04_copied_shares_records). Exact equality "
+        "without that premise is refuted (C04_same_sequence_exact_refuted: expansions 2 and 2 + 1e-8 both pass the code's check) - "
+        "the tolerance is inherent in comparing floats. Not proved as an invariant: which pairs still share records in the final "
+        "state (a copied wire's source can itself be overwritten later from a third wire of the same edge)",
     ]
 
     def cases(self, ctx):
@@ -635,10 +651,13 @@ class C04(Prop):
                     "differ, random insertion order); one chopped direction per family (8 keyword combinations x 3 preserve modes, 25% "
                     "two-section), in 30% a second chopped direction in a family (agreeing or same count with another expansion); "
                     "native and injected iteration orders. (U) model run by vm_compute: outcome, counts, 12 wire specifications per "
-                    "block, simple/edge choice, chops per axis. (N) one interval goal per Chop.calculate on a wire (<= cap). "
+                    "block, simple/edge choice, chops per axis. (N) one interval goal per Chop.calculate on a wire (<= cap). 40% with 1-3 arcs on random "
+                    "block edges, 30% with 1-4 vertices moved after assembly; on every case all coincident wire pairs must report one "
+                    "Wire.length (hypothesis len_shared), written expansions positive, length ratios in (0,1]. "
                     "non-trivial = >= 2 blocks and a propagated size/ratio-preserving chop; distinct by assembly json + schedule kind")
         spec = self.cases(ctx)
         done = []
+        npairs = [0]
         for (asm, prio) in spec:
             r = run_impl(asm, ctx.work, prio)
             done.append((asm, prio is not None, r))
@@ -661,6 +680,16 @@ class C04(Prop):
             ow = orientation_witness(asm, r)
             if ow:
                 res.error = "orientation hypothesis of the theorems fails on a generated assembly: " + ow
+            # hypotheses of the real-valued theorems that are discharged per run on the implementation's numbers
+            if not r["outcome"].startswith("error:") and r["outcome"] != "nofuel":
+                hw = len_shared_witness(r, npairs) or sequence_hypotheses_witness(r)
+                if hw:
+                    res.mismatches.append(dict(case=len(done) - 1, assembly=asm.to_json(), injected=prio is not None,
+                                               impl_outcome=r["outcome"],
+                                               why="a hypothesis of the theorems (len_shared / expansions_positive / "
+                                                   "ratios_bounded) does not hold on this case: " + hw))
+                if getattr(asm, "arcs", None) and getattr(asm, "moves", None):
+                    res.count("len_shared checked with arcs and moved vertices")
         # (U) discrete model in Coq
         shards = []
         per = 12
@@ -736,6 +765,7 @@ class C04(Prop):
             res.error = "%d of %d interval goals printed no verdict" % (len(goals) - len(okn), len(goals))
         res.evaluations += len(goals)
         res.count("interval_goals", len(goals))
+        res.count("len_shared: coincident wire pairs compared (Wire.length, rel. 1e-9)", npairs[0])
         res.traces = len(done)
         res.samples = [dict(assembly=a.to_json(), injected=inj, outcome=r["outcome"], counts=r.get("counts"),
                             wire_specs_block0=(r.get("wire_specs") or [None])[0]) for (a, inj, r) in done[:3]]
@@ -770,6 +800,8 @@ class C04(Prop):
         why = rp.get("why") or ""
         if why.startswith("preserve="):
             cls = "preserve-not-realised"
+        elif why.startswith("shared edge lengths differ"):
+            cls = "shared-edge-lengths-differ"
         elif why.startswith("shared edge"):
             cls = "shared-edge-sequences-differ"
         elif "simpleGrading but" in why:
@@ -822,6 +854,68 @@ def orientation_witness(asm, res):
                     return "aligned wires %r %r with different direction labels" % (w, c)
                 if ends[w] == ends[c][::-1] and sign[w[:2]] == sign[c[:2]]:
                     return "anti-aligned wires %r %r with equal direction labels" % (w, c)
+    return None
+
+
+def wire_ends(res):
+    ends = {}
+    for bi, vs in enumerate(res["verts"]):
+        for a in range(3):
+            for k, (c1, c2) in enumerate(gc.AXIS_PAIRS_REF[a]):
+                ends[(bi, a, k)] = (vs[c1], vs[c2])
+    return ends
+
+
+def coincident_pairs(res):
+    """pairs of wires of different blocks between the same two vertices (either direction): Wire.is_coincident, the
+    model's [coincident]"""
+    by_edge = {}
+    for w, (v1, v2) in wire_ends(res).items():
+        by_edge.setdefault(frozenset((v1, v2)), []).append(w)
+    for ws in by_edge.values():
+        for i, w in enumerate(ws):
+            for c in ws[i + 1:]:
+                if w[0] != c[0]:
+                    yield w, c
+
+
+def len_shared_witness(res, count=None):
+    """hypothesis [len_shared] of C04_preserve_realised / C04_same_sequence, on the implementation's numbers: coincident
+    wires report the same Wire.length when the mesh is written (straight edges, arcs, vertices moved after assembly),
+    and a wire is graded on that length.  Returns None or a description."""
+    wl = res.get("wire_lengths")
+    if wl is None:
+        return "wire lengths were not recorded"
+    n = 0
+    for w, c in coincident_pairs(res):
+        lw, lc = wl[w[0]][4 * w[1] + w[2]], wl[c[0]][4 * c[1] + c[2]]
+        n += 1
+        if not (math.isfinite(lw) and math.isfinite(lc) and rel_close(lw, lc, TOL_LEN)):
+            return ("shared edge lengths differ: block %d (axis %d wire %d) measures %.12g, block %d (axis %d wire %d) measures "
+                    "%.12g for the same vertex pair" % (w[0], w[1], w[2], lw, c[0], c[1], c[2], lc))
+    for f in res.get("fills", []):
+        if "wlen" in f:
+            b, a, k = f["wire"]
+            if not rel_close(f["wlen"], wl[b][4 * a + k], TOL_LEN):
+                return ("shared edge lengths differ: block %d axis %d wire %d was graded on length %.12g, its edge measures %.12g "
+                        "when the mesh is written" % (b, a, k, f["wlen"], wl[b][4 * a + k]))
+    if count is not None:
+        count[0] += n
+    return None
+
+
+def sequence_hypotheses_witness(res):
+    """the other per-run hypotheses of C04_same_sequence: 0 <= tau < 1, every written expansion positive
+    ([expansions_positive]), every length ratio in (0, 1] ([ratios_bounded 1])"""
+    if not (0.0 <= res["tol"] < 1.0):
+        return "constants.TOL = %r is not in [0, 1)" % res["tol"]
+    for bi, blk in enumerate(res.get("wire_specs") or []):
+        for wi, spec in enumerate(blk):
+            for sec in spec:
+                if not (sec[2] > 0.0 and math.isfinite(sec[2])):
+                    return "block %d wire %d carries the total expansion %r" % (bi, wi, sec[2])
+                if not (0.0 < sec[0] <= 1.0):
+                    return "block %d wire %d carries the length ratio %r" % (bi, wi, sec[0])
     return None
 
 
